@@ -278,3 +278,42 @@ Proof. vm_compute. split; reflexivity. Qed.
 Example c04_example_invariant :
   stack_from [] (trace repaired (firstn 9 c04_history)) = Some [1; 0].
 Proof. vm_compute. reflexivity. Qed.
+
+(* ---- the factory layer keeps the registry inside the protocol ------------------------------------------------
+   [c04_factory_conforms] in full (every op history Model/Factory.v issues is in the protocol language
+   [conforms_strict]) is decided dynamically: the check traces the REAL registry calls of real starts and
+   requires them to be in the strict language on every run.  What is proved here is its state-level
+   counterpart, for every scenario and every successful call: the registry states between calls of
+   doGetComponent satisfy the protocol invariant — early references and early factories exist only for
+   names in creation, names in creation have a cache entry and are unpublished, cache entries hold versions
+   of their own name — and a call leaves the in-creation set as it found it (creations are bracketed).
+   c04_factory_conforms_partial. *)
+From IocVerif Require Import Model.Factory Model.App Proofs.FactoryBasics Proofs.FactoryInvariant.
+
+Theorem c04_factory_conforms_partial : forall s fuel st n st' v,
+  Inv st -> do_get repaired s fuel st n = Ok (st', v) ->
+  (* bracketing: the in-creation set is restored *)
+  creating (reg st') = creating (reg st)
+  (* the returned version is what every later lookup of n yields: published, or the one early reference *)
+  /\ cur (reg st') n = Some v
+  (* the protocol invariant holds again *)
+  /\ (forall m, isSome (alookup m (L2 (reg st'))) || isSome (alookup m (L3 (reg st'))) = true -> In m (creating (reg st')))
+  /\ (forall m, In m (creating (reg st')) -> cached (reg st') m = true /\ alookup m (L1 (reg st')) = None)
+  /\ Inv st'.
+Proof.
+  intros s fuel st n st' v HI H. destruct (do_get_spec repaired s eq_refl fuel st n st' v HI H) as [HI' [Hc [_ Hv]]].
+  split; [exact Hc|]. split; [exact Hv|]. split; [apply (i_early_creating st' HI')|].
+  split; [|exact HI']. intros m Hm. split; [apply (i_creating_cached st' HI' m Hm)|apply (i_creating_unpub st' HI' m Hm)].
+Qed.
+
+(* after a whole successful start nothing is in creation and no early reference or factory is left *)
+Theorem c04_start_leaves_registry_clean : forall s st,
+  run repaired s = Ok st ->
+  creating (reg st) = [] /\ forall m, alookup m (L2 (reg st)) = None /\ alookup m (L3 (reg st)) = None.
+Proof.
+  intros s st H. destruct (run_core_top repaired (normalise repaired s) st eq_refl H) as [HI Hcr].
+  split; [exact Hcr|]. intros m.
+  destruct (alookup m (L2 (reg st))) eqn:E2; [exfalso|destruct (alookup m (L3 (reg st))) eqn:E3; [exfalso|split; reflexivity]].
+  - assert (Hin : In m (creating (reg st))) by (apply (i_early_creating st HI); rewrite E2; reflexivity). rewrite Hcr in Hin. exact Hin.
+  - assert (Hin : In m (creating (reg st))) by (apply (i_early_creating st HI); rewrite E2, E3; reflexivity). rewrite Hcr in Hin. exact Hin.
+Qed.
